@@ -57,6 +57,16 @@ PROPS = {
              "normal-mode stream of the same object; non-trivial = composite tree with a mapped leaf",
         nontrivial=lambda p: bool(prog_kinds(p) & {"concat", "replace", "cached"}) and bool(prog_kinds(p) & {"orig", "sms"}),
     ),
+    "C04": dict(
+        gens=[tlc("c02"), rand("orig_trees", 700, "quick"), rand("orig_trees", 30000, "thorough")],
+        tv_props=["C04"],
+        must_fire=["C04.segments_point_to_origin", "C04.originals_covered", "C04.raw_unmapped",
+                   "C04.statement_starts_exact", "C04.sources_table", "C04.lines_first_original"],
+        rule="trees over raw/orig/concat/replace/cached (Cached never beneath Replace); the byte provenance Prov(tree) of "
+             "Sem.tla is compared with what the decoded map resolves every position to; non-trivial = an OriginalSource "
+             "beneath a composite",
+        nontrivial=lambda p: "orig" in prog_kinds(p) and bool(prog_kinds(p) & {"concat", "replace"}),
+    ),
     "C05": dict(
         gens=[tlc("c05"), rand("replace_hist", 500, "quick"), rand("replace_hist", 30000, "thorough")],
         tv_props=["C05"],
@@ -80,6 +90,16 @@ PROPS = {
         must_fire=["C07.source_is_text", "C07.buffer", "C07.size_is_buffer_len", "C07.rope_renders_to_text", "C07.writer"],
         rule="all five content views plus failing writers; non-trivial = composite tree or a binary leaf",
         nontrivial=lambda p: bool(prog_kinds(p) & {"concat", "replace", "cached"}),
+    ),
+    "C08": dict(
+        gens=[tlc("c08"), rand("sms_leaf", 500, "quick"), rand("sms_leaf", 30000, "thorough")],
+        tv_props=["C08"],
+        must_fire=["C08.stream_columns", "C08.stream_lines", "C08.final_columns", "C08.final_lines",
+                   "C08.declared_tables", "C08.via_enclosing_map"],
+        rule="every text/map pair of the scope served by SourceMapSource and by a user-defined source over "
+             "stream_chunks_default, columns x final-source, and through map() of an enclosing ConcatSource; "
+             "non-trivial = the map has at least two segments",
+        nontrivial=lambda p: True,
     ),
     "C11": dict(
         gens=[tlc("c02"), rand("stream_ascii", 600, "quick"), rand("stream_ascii", 30000, "thorough")],
